@@ -275,7 +275,7 @@ theorem step_queued (L : Limits) (st : St) (op : Op) :
     (∀ x ∈ (step L st op).1.queued, x ∈ st.queued ∨ x ∈ handedOf op) ∧
     (∀ t ∈ (step L st op).2.2.attempts, t.action ∈ st.queued ∨ t.action ∈ handedOf op) := by
   cases op with
-  | conn p =>
+  | conn p alive =>
     simp only [step]
     split
     · exact ⟨fun x h => Or.inl h, by simp⟩
@@ -465,7 +465,7 @@ theorem step_wf (L : Limits) (st : St) (op : Op) : ∀ t ∈ (step L st op).2.2.
       · split at h
         · exact (runActions_wf L _ _ _ t h).1
         · exact (runActions_wf L _ _ _ t h).1
-  | conn p =>
+  | conn p alive =>
     intro t h
     simp only [step] at h
     split at h
